@@ -20,6 +20,18 @@ class ProbeScenario(scen_common.ScenarioWithPc):
         if st.roots.get('probing'):
             base = [x for x in base if x[0] != 'CRASH']
         runnable = any(t.status == 'runnable' for t in st.sched.tasks)
+        pairs = self.cfg.get('probe_pairs')
+        if pairs and st.roots.get('probing') and not runnable and not st.roots.get('paid'):
+            # two-part retries: the second part of a pair arrives while the first one is held (or right after it was
+            # answered): the parts of one retry come one after the other, not together
+            for a, b in pairs:
+                if a in st.roots['delivered'] and b not in st.roots['delivered'] and \
+                        all(x[0].startswith('fire ') for x in base):
+                    # cooperative sender: the second part arrives before the MPP timer of the first one fires
+                    return [('deliver htlc%d' % b, self._deliver(b))]
+        if pairs and st.roots.get('probing') and runnable:
+            # ... and a timer does not fire while a handler that has already been called has not run yet
+            base = [x for x in base if not x[0].startswith('fire ')]
         nondeliv = [x for x in base if not x[0].startswith('fire ')] if False else base
         if not base and not runnable and 0 in st.roots['delivered']:
             # quiescent: the next probe may arrive
@@ -88,6 +100,11 @@ def main(tier, seed, args):
         for store in ('free_absent', 'free'):
             cfg, pc = scen_payflow.flow_cfg(3, store, amounts=[1006000] * 3, pay_outcomes=('complete', 'failed'), **kw)
             configs.append(('interrupted by %s, then 2 retries%s' % (name, '' if store == 'free_absent' else ' (hash used before)'), cfg, pc, kw))
+    # retries that come in two parts, one after the other, after a crash while the payment was in flight: a stale Pending
+    # record (its attempt possibly older than the MPP timeout) must not make every such retry fail
+    cfg, pc = scen_payflow.flow_cfg(5, 'free_absent', amounts=[1006000, 500000, 506000, 500000, 506000], pay_outcomes=('failed',),
+                                    crash=1, crash_after_pays=1, probe_pairs=((1, 2), (3, 4)), parts_can_fail=True)
+    configs.append(('interrupted by crash during pay, then 2 two-part retries', cfg, pc, dict(crash=1)))
     if tier == 'thorough':
         cfg, pc = scen_payflow.flow_cfg(3, 'free_absent', amounts=[1006000] * 3, pay_outcomes=('complete', 'failed'), crash=1, write_faults=1)
         configs.append(('crash + write fault, then 2 retries', cfg, pc, {}))
